@@ -121,7 +121,24 @@ def _name(prefix):
     return "%s%d" % (prefix, _counter[0])
 
 
-def build(spec):
+class PipelineSub(Pipeline):
+    """a user's subclass of Pipeline (imbalanced-learn's Pipeline, a caching pipeline, ...): still a Pipeline"""
+
+    def n_steps(self):
+        return len(self.steps)
+
+
+class FeatureUnionSub(FeatureUnion):
+    def n_members(self):
+        return len(self.transformer_list)
+
+
+class ColumnTransformerSub(ColumnTransformer):
+    def n_blocks(self):
+        return len(self.transformers)
+
+
+def build(spec, subclass=False):
     t = spec["t"]
     if t == "leaf":
         k = spec["k"]
@@ -143,11 +160,12 @@ def build(spec):
                 "KMeans": lambda: KMeans(n_clusters=2, n_init=1, random_state=0),
                 "LinearDiscriminantAnalysis": lambda: LinearDiscriminantAnalysis()}[spec["k"]]()
     if t == "pipeline":
-        return Pipeline([(_name("s"), build(s)) for s in spec["steps"]])
+        return (PipelineSub if subclass else Pipeline)([(_name("s"), build(s, subclass)) for s in spec["steps"]])
     if t == "union":
-        return FeatureUnion([(_name("u"), build(s)) for s in spec["members"]])
+        return (FeatureUnionSub if subclass else FeatureUnion)([(_name("u"), build(s, subclass)) for s in spec["members"]])
     if t == "columns":
-        return ColumnTransformer([(_name("c"), build(tr["tr"]), tr["cols"]) for tr in spec["transformers"]], remainder=spec["remainder"])
+        return (ColumnTransformerSub if subclass else ColumnTransformer)([(_name("c"), build(tr["tr"], subclass), tr["cols"]) for tr in spec["transformers"]],
+                                                                         remainder=spec["remainder"])
     raise ValueError(t)
 
 
